@@ -8,7 +8,7 @@ of an earlier coordinate or of an earlier whole row) + a seeded bulk of 0..300 m
 mixture (also sized as thread-count multiples +-1) x npartition 1..64 and 65..200 (> N) x coord
 x float32/float64 x weights none/index/random/constant x sort x nthread 1..16 and -1 (= all 16)
 x box sizes (dyadic, decimal, not representable in float32).  Positions stay in [0, L].
-Exhaustive sub-space: every (N, nthread) with N <= 64 (quick) / 300 (thorough), nthread 1..16,
+Exhaustive sub-space: every (N, nthread) with N <= 256 (quick) / 520 (thorough), nthread 1..16,
 on an adversarial particle pattern; plus six blocks of 66 000..270 000 particles (uniform, or a slab inside one
 stripe) with 1-2 threads so that one thread's share of one stripe exceeds 2^16 / 2^17 (the per-thread
 histogram cell); the strategy draws such a block in ~1/40 of the cases.
@@ -44,8 +44,8 @@ ASSUMPTIONS = [
     'schedule independence is not sampled directly: every thread owns a private output range, so the result is a function of the thread count, which is enumerated (1..16); run-to-run identity (vi) is a corroborating probe only',
 ]
 EXHAUSTIVE_NOTE = {
-    'quick': 'all (N, nthread) with N in 0..64, nthread in 1..16 (npartition 5, adversarial boundary/duplicate pattern; dtype, weights, sort, coord cycled); 6 large blocks (66k..270k particles, >2^16 per thread and stripe)',
-    'thorough': 'all (N, nthread) with N in 0..300, nthread in 1..16 (npartition 5, adversarial boundary/duplicate pattern; dtype, weights, sort, coord cycled); 6 large blocks (66k..270k particles, >2^16 per thread and stripe)',
+    'quick': 'all (N, nthread) with N in 0..256, nthread in 1..16 (npartition 5, adversarial boundary/duplicate pattern; dtype, weights, sort, coord cycled); 6 large blocks (66k..270k particles, >2^16 per thread and stripe)',
+    'thorough': 'all (N, nthread) with N in 0..520, nthread in 1..16 (npartition 5, adversarial boundary/duplicate pattern; dtype, weights, sort, coord cycled); 6 large blocks (66k..270k particles, >2^16 per thread and stripe)',
 }
 BOXES = [1.0, 2.0, 64.0, 100.0, 123.0, 500.0, 1000.0, 2000.0, 0.5, 0.7, 0.1, 123.456, 1e-3, 3.0]
 _last = {'key': None, 'nt': False, 'classes': []}
@@ -400,7 +400,7 @@ _PATTERN = [['bw', 3, 20], ['bw', 2, -24], ['b', 1, 0], ['b', 2, -1], ['dx', 0, 
 
 
 def exhaustive(tier, shard, nshards):
-    nmax = 64 if tier == 'quick' else 300
+    nmax = 256 if tier == 'quick' else 520
     i = 0
     for n in range(nmax + 1):
         for nthread in range(1, 17):
